@@ -17,6 +17,7 @@ import Pdb.Model.Index
 import Pdb.Model.DumpCheck
 import Pdb.Model.DumpCheckRc
 import Pdb.Model.C02xDriver
+import Pdb.Model.RefineRc
 
 open Pdb
 
@@ -115,6 +116,7 @@ structure State where
   c04b : Option Pdb.C04.DrvB := none
   c09 : Pdb.Index.DState := Pdb.Index.DState.init
   c02x : Pdb.C02xDriver.State := none
+  r5 : Pdb.RefineRc.DState := Pdb.RefineRc.DState.init
 
 def stepLine (s : State) (line : String) : State × String :=
   let ws := (line.trimAscii.toString.splitOn " ").filter (· ≠ "")
@@ -154,6 +156,9 @@ def stepLine (s : State) (line : String) : State × String :=
   | "c02x" :: rest =>
     let (c, o) := Pdb.C02xDriver.step s.c02x rest
     ({ s with c02x := c }, o)
+  | "r5" :: rest =>
+    let (d, out) := Pdb.RefineRc.step s.r5 rest
+    ({ s with r5 := d }, out)
   | [] => (s, "")
   | _ => (s, "bad-op")
 
